@@ -34,6 +34,10 @@ Dim(r, v, f) == LET m == DefaultSuite(v) IN
 F0 == [cred |-> "rsa", group |-> "default", alpn |-> "none", resume |-> FALSE, cauth |-> FALSE, mustFail |-> FALSE, kind |-> "dim"]
 
 Groups == { Dim(r, v, [F0 EXCEPT !.group = g, !.kind = "group"]) : r \in Roles, v \in Versions \cap {3, 4}, g \in Range(Cap.groups) }
+\* the server's ECDSA certificate and the key-exchange group are independent in TLS 1.3 (the certificate's curve need
+\* not be among the client's supported_groups)
+GroupsEc == { Dim(r, 4, [F0 EXCEPT !.group = g, !.cred = "ecdsa", !.kind = "group"]) : r \in Roles \cap (IF 4 \in Versions THEN Roles ELSE {}),
+                                                                                   g \in Range(Cap.groups) }
 Creds13 == { Dim(r, 4, [F0 EXCEPT !.cred = c, !.kind = "cred"]) : r \in Roles, c \in Range(Cap.creds13) }
 Creds12 == { [Dim(r, 3, [F0 EXCEPT !.cred = c, !.kind = "cred"]) EXCEPT !.sid = 49195, !.tokens = (CHOOSE m \in Mutual : m.sid = 49195).tokens] :
              r \in Roles, c \in Range(Cap.credsEc12) }
@@ -52,7 +56,7 @@ Range2 == { [Dim(r, v, [F0 EXCEPT !.kind = "range"]) EXCEPT !.sid = m.sid, !.tok
 \* as a full handshake and as a ticket resumption
 Hrr == { Dim(r, 4, [F0 EXCEPT !.kind = k, !.resume = (k = "hrr-resume")]) : r \in Roles \cap (IF 4 \in Versions THEN Roles ELSE {}),
                                                                             k \in {"hrr", "hrr-resume"} }
-Cases == Base \cup Groups \cup Creds13 \cup Creds12 \cup Alpn \cup Resume \cup ClientAuth \cup NoCommon \cup Range2 \cup Hrr
+Cases == Base \cup Groups \cup Creds13 \cup Creds12 \cup Alpn \cup Resume \cup ClientAuth \cup NoCommon \cup Range2 \cup Hrr \cup GroupsEc
 
 ExpectedAlpn(c) == CASE c.alpn = "none" -> "" [] c.alpn = "overlap" -> "h2" [] c.alpn = "first" -> "http/1.1" [] OTHER -> "-"
 
